@@ -170,6 +170,17 @@ def cases(rng, tier, stats):
             out.append(L.graph_case("parse-module-graph", n_, edges, desc)); ng += 1
             out.append(L.graph_case("parse-module-graph", n_, edges, desc, same_alias=True)); ng += 1     # two modules under one alias
     stats["module_graphs"] = ng
+    # import statements with degenerate path texts inside an imported module: the loader answers with an error value, never a panic
+    from props.base import run_req, cmp_run
+    nd = 0
+    for bad in ("", ".", "./", "..", "sub/..", "lib/..", "/", "sub/", "sub", ".pakhi", "x.pakhi/", " ", "../"):
+        for where in ("b.pakhi", "sub/c.pakhi"):
+            lines = ["RESET", "FILE " + C.hx("@ROOT@/" + where) + " " + C.hx('দেখাও "মডিউল";\nমডিউল ভ = "' + bad + '";\n'),
+                     "FILE " + C.hx("@ROOT@/sub/d.pakhi") + " " + C.hx('দেখাও "d";\n'),
+                     run_req('দেখাও "আগে";\nমডিউল ম = "' + where + '";\nদেখাও "x";\n')]
+            out.append(C.Case("loader-degenerate-in-module", lines, cmp_run(), L.err_oracle, info={"bad": bad, "where": where, "run_index": 3}))
+            nd += 1
+    stats["degenerate_imports_in_modules"] = nd
     return out
 
 
